@@ -190,6 +190,7 @@ structure Param where
   name : Nat
   borrowed : Bool    -- `InputFlags.Inout`
   comptime : Bool := false
+  place : Bool := true   -- the ARGUMENT of a call is a place (`PlaceNode`); temporaries are not
   deriving DecidableEq, Repr, Inhabited
 
 /-- output row of the lowered function: declared results, then one port per borrowed input in
@@ -198,7 +199,10 @@ def hugrOutputs (params : List Param) (results : List Nat) : List (Sum Nat Nat) 
   results.map .inl ++ (params.filter (·.borrowed)).map (fun p => .inr p.name)
 
 /-- `_update_inout_ports`: walk parameters and an iterator over the extra output ports; every
-    borrowed parameter takes the next port.  Returns the assignment and the unconsumed ports. -/
+    borrowed parameter takes the next port — also when its argument is not a place (a temporary
+    such as `array(7, 8)` or `fresh()`, which may be dropped after the call): then the port is
+    consumed (`next(inout_ports); continue`) and nothing is bound.  Returns the bindings
+    (place-argument name ↦ port) and the unconsumed ports. -/
 def updateInoutPorts : List Param → List Nat → Option (List (Nat × Nat) × List Nat)
   | [], ports => some ([], ports)
   | p :: ps, ports =>
@@ -206,7 +210,7 @@ def updateInoutPorts : List Param → List Nat → Option (List (Nat × Nat) × 
       match ports with
       | [] => none                       -- `next(inout_ports)` raises StopIteration
       | w :: ws => match updateInoutPorts ps ws with
-        | some (asg, rest) => some ((p.name, w) :: asg, rest)
+        | some (asg, rest) => some (if p.place then (p.name, w) :: asg else asg, rest)
         | none => none
     else updateInoutPorts ps ports
 
